@@ -43,10 +43,14 @@ def check(scn, H, view=None):
             return
         done.add(sig)
         out.append(Violation(PROP, sig, kw))
-    eta_t = eta_total(v)
     by_instant = {}
+    ep_by_index = {e['index']: e for e in v.epochs}
     for c in H['rule_calls']:
         rule = rules[c['rule']]
+        eta_t = 1.0
+        ep_c = ep_by_index.get(c['epoch'])
+        for x in (v.eta_at(ep_c, c['k']) if ep_c else v.eta)[1:]:
+            eta_t *= x
         kind = rule['kind']
         by_instant.setdefault((c['epoch'], c['k']), []).append(c)
         if kind == 'Scripted':
